@@ -153,6 +153,18 @@ CHECKS = {
             "Nothing is sampled, so the verdict is a statement about all inputs.",
             "Trusts the closed-form schedule written in the check (10^9 >> (h // 1,050,000)) and the regexes that read "
             "docs/params.md.", "DESIGN.md section 4, C16"),
+    'C19': (MC, "explicit-state search over network-manager event sequences on one real node with a back-off monitor in "
+                "lock-step; exhaustive back-off table; crash-point enumeration of every peer-file rewrite",
+            "BFS to depth 5 (6) from six initial peer books (empty, one, two hosts, two ports, and two non-initial ones with 2 / 3 "
+            "prior failures) over ticks (+0,9,10,11,20,40,1800 s), dials established / refused, incoming connections (also "
+            "duplicate keys), greetings (claimed port, own / other nonce, repeated), peers messages (incl. IPv6-only), remote "
+            "close, garbage, OS error, <= 3 open connections, give-up seam 3: no key in both maps, nothing escapes the loop, "
+            "every dial satisfies the back-off monitor and the give-up bound, self-connections are dropped, recorded and never "
+            "redialled; is_time_to_connect equals the formula for every k in 0..2882 with the real constants; peers.json after "
+            "every greeting (incl. a 130-peer run) is newest-first, <= 100, duplicate-free, and every crash snapshot of every "
+            "rewrite is the complete old or new list.",
+            "Real sockets / selector replaced by fakes that reproduce register/modify/unregister and recv/send/close errors.",
+            "DESIGN.md section 4, C19"),
 }
 
 NOT_YET = "check not built yet in this revision of /verif (work in progress; see DESIGN.md section 4)"
